@@ -303,7 +303,7 @@ func c12CLI(c *fw.Ctx) fw.Outcome {
 	out := filepath.Join(c.TmpDir(), "out.srt")
 	os.WriteFile(ina, []byte(simpleSRT(a)), 0o644)
 	os.WriteFile(inb, []byte(simpleSRT(b)), 0o644)
-	os.Remove(out)
+	out = outPath(c.R, ina, out)
 	key := hashCues(append(append([]tcue(nil), a...), b...), 0xc12)
 	msg, err := cli("merge", "-i", ina, "-i", inb, "-o", out)
 	if err != nil {
@@ -345,7 +345,7 @@ func c12CLIDefs(c *fw.Ctx) fw.Outcome {
 	out := filepath.Join(c.TmpDir(), "out.ttml")
 	os.WriteFile(ina, []byte(mk("A", true)), 0o644)
 	os.WriteFile(inb, []byte(mk("B", true)), 0o644)
-	os.Remove(out)
+	out = outPath(c.R, ina, out)
 	if msg, err := cli("merge", "-i", ina, "-i", inb, "-o", out); err != nil {
 		return fw.Bad(0xc12d, nil, "CLI merge of two TTML documents failed: %v %s", err, msg)
 	}
